@@ -21,6 +21,8 @@ MANIFEST = {
             "1e-6 relative on gaps (geodesic).",
     "technique": "bounded-exhaustive enumeration of traces x spacings with an oracle derived from the statement",
 }
+MANIFEST["text"] += " " + (
+    'Added after the seeding waves: spacings derived from the legs of each trace (just below / above an exact divisor).')
 BUDGET = {"quick": 120, "thorough": 900}
 RULE = ("cases = (metric, anchor, trace length, first point); each enumerates all traces with that first point x all spacings x "
         "{pairs, triples}. states = (trace, spacing) inputs evaluated, transitions = output points checked, non-trivial = at least "
